@@ -104,6 +104,9 @@ class Documents(HypPart):
     def check(self, case):
         return check_case(case, c03.Documents().excludes() + self.excludes())
 
+    def describe(self, case):
+        return c03.build(case, {'refs': True, 'exclude': c03.Documents().excludes()})[1]
+
     def excludes(self):
         return []
 
